@@ -116,7 +116,7 @@ __CPROVER_ensures(g_ops == (self == rhs ? 0 : 2))                               
 #if UNIT_COPY_HELPER
 extern int g_vis, g_smset2; extern const _Bool g_has_accept_sig;
 void copy_visitor_helper(fsm_t* m_sm, type_t StateType, int id)
-__CPROVER_requires(g_vis == 0)
+__CPROVER_requires(g_vis == 0 && m_sm == g_self2)                                  /*@ob C15.visitor-of-every-copied-substate-is-bound-to-the-copys-own-state-object */
 __CPROVER_assigns(g_vis)
 __CPROVER_ensures(g_vis == 1)
 ;
@@ -131,6 +131,7 @@ void copy_helper_call(copy_helper_t* self, type_t StateType)
 __CPROVER_requires(__CPROVER_is_fresh(self, sizeof(*self)) && self->m_sm == g_self2 && g_vis == 0 && g_smset2 == 0)
 __CPROVER_assigns(g_vis, g_smset2)
 __CPROVER_ensures(g_smset2 == 1)                                                                           /*@ob C15.copied-substates-point-back-to-the-copy-not-to-the-original */
+__CPROVER_ensures(g_vis == 1)                                                                              /*@ob C15.visitor-of-every-copied-substate-is-bound-to-the-copys-own-state-object */
 ;
 #endif
 #if UNIT_FILL_STATES
